@@ -26,12 +26,17 @@ structure CQuirks where
   /-- mod.rs `Ord for Color`: Hsla/Hsla and Hsla/Hwba pairs are compared field by field
   (derived `PartialOrd`, including the `hsla_format` flag), not by their rgba channels -/
   hslaEqStructural : Bool := false
+  /-- functions/color/hsl.rs `lighten`/`darken` before fix 9a5b50b: `lum ± amount` passed on unclamped -/
+  lightenUnclamped : Bool := false
+  /-- functions/color/hsl.rs global `grayscale` before fix bbb0a86: result always with `hsla_format = false` -/
+  grayscaleRgbFormat : Bool := false
   deriving Repr, DecidableEq
 
 def CQuirks.spec : CQuirks := {}
 def CQuirks.asis : CQuirks :=
   { maxTieRedGreen := true, hslUnclamped := true, hwbUnclamped := true,
-    degModNegZero := true, hslaEqStructural := true }
+    degModNegZero := true, hslaEqStructural := true, lightenUnclamped := true,
+    grayscaleRgbFormat := true }
 
 /-- `RgbFormat` (rgba.rs) -/
 inductive RgbFormat | longHex | shortHex | name | rgb
@@ -83,11 +88,14 @@ def Rgba.fromBytesA (r g b a : Nat) : Rgba α :=
   { r := CExtra.ofNat r, g := CExtra.ofNat g, b := CExtra.ofNat b,
     a := (CExtra.ofNat a : α) / 255, src := .longHex }
 
-/-- hsla.rs `deg_mod`: `value % 360`, plus 360 when negative.  The code tests the sign *bit*
-of the remainder (which is the sign bit of `value`), the property needs `< 0`. -/
+/-- hsla.rs `deg_mod`: `value % 360`, plus 360 when negative.  Before fix 60b104e the code
+tested the sign *bit* of the remainder (which is the sign bit of `value`); the property needs
+`< 0`.  Since the fix: `if value < 0. { value + turn } else { value.abs() }` (the `abs` drops
+the sign of a negative zero). -/
 def degMod (q : CQuirks) (v : α) : α :=
   let r := CExtra.fmod v (360 : α)
-  if (if q.degModNegZero then CExtra.signNeg v else decide (r < 0)) then r + 360 else r
+  if q.degModNegZero then (if CExtra.signNeg v then r + 360 else r)
+  else (if r < 0 then r + 360 else CExtra.abs r)
 
 /-- hsla.rs `Hsla::new`: `hue: deg_mod(hue)`, `sat: sat.clamp(0, inf)`, `lum`,
 `alpha: alpha.max(0).min(1)`.  Specified: saturation and lightness clamped to 0..1. -/
